@@ -17,6 +17,7 @@ pub fn run_check(prop: &str, _args: &[String]) -> i32 {
         "C11" => discard_check(),
         "C13" => crate::enumchk::c13(),
         "C15" => crate::enumchk::c15(),
+        "C14" => crate::c14::c14(),
         _ => {
             eprintln!("unknown property {}", prop);
             2
@@ -198,13 +199,15 @@ fn seq_family(prop: &str) -> i32 {
             SeqPlan { geo: images::G9, images: vec!["libfmt", "data"], cfgs: vec!["small"], depth: 3, secs: 10 },
             SeqPlan { geo: images::G10, images: vec!["libfmt", "data"], cfgs: vec!["small", "ample"], depth: 3, secs: 14 },
             SeqPlan { geo: images::G12, images: vec!["libfmt"], cfgs: vec!["small"], depth: 2, secs: 5 },
+            SeqPlan { geo: images::G12B, images: vec!["compressed", "compressed-straddle", "backing"], cfgs: vec!["small"], depth: 2, secs: 6 },
         ]
     } else {
         vec![
             SeqPlan { geo: images::G9, images: vec!["libfmt", "data", "empty"], cfgs: vec!["small", "ample"], depth: 6, secs: 240 },
             SeqPlan { geo: images::G10, images: vec!["libfmt", "data", "empty"], cfgs: vec!["small", "ample"], depth: 6, secs: 300 },
             SeqPlan { geo: images::G12, images: vec!["libfmt", "data"], cfgs: vec!["small", "default"], depth: 4, secs: 120 },
-            SeqPlan { geo: images::G12B, images: vec!["libfmt"], cfgs: vec!["small"], depth: 3, secs: 60 },
+            SeqPlan { geo: images::G12B, images: vec!["libfmt", "compressed", "compressed-straddle", "compressed-boundary", "backing", "zero"], cfgs: vec!["small"], depth: 3, secs: 120 },
+            SeqPlan { geo: images::G10, images: vec!["zero", "compressed", "compressed-straddle", "backing", "backing-short"], cfgs: vec!["small"], depth: 4, secs: 200 },
             SeqPlan { geo: images::G16, images: vec!["libfmt"], cfgs: vec!["default"], depth: 3, secs: 60 },
         ]
     };
